@@ -601,7 +601,15 @@ def error_cases(res, lines, expect, meta):
     lines.append("dbal.vec %d %s 3,2,1 %s %s" % (one, enc_mat(np.ones((n + 1, n + 1)).tolist()), enc_3d(np.zeros((2, n, 3)).tolist()), enc_3d(np.ones((2, n, 3)).tolist())))
     expect.append(e)
     meta.append(("err", None))
-    res.count("error_cases", 7)
+    # no plates at all: the empty dict, without touching the distance matrix or the generator
+    try:
+        out = gd.GaussianDBALScorer(max_chunk=3).score(plates={}, distance_matrix=None, samples=None, rng=None, progress_bar=False)
+        e = "-" if out == {} else "nonempty"
+    except Exception as ex:  # noqa
+        e = "err:" + type(ex).__name__
+    if e != "-":
+        res.fail("scorer on an empty dict of plates does not return the empty dict", {"kind": "error", "n": 0}, e, "{}", signature="errors")
+    res.count("error_cases", 8)
 
 
 def real_objects_case(subseed):
